@@ -77,9 +77,17 @@ fn text_case(a: &[u8], b: &[u8], toks: &[usize], algs: &[Algorithm], out: &mut L
             continue;
         }
         for &alg in algs {
-            for as_str in [false, true] {
-                if as_str && !valid {
+            for ty in 0..3u8 {
+                let as_str = ty == 1;
+                if ty >= 1 && !valid {
                     continue;
+                }
+                if ty == 2 {
+                    odd_case(tok, alg, std::str::from_utf8(a).unwrap(), std::str::from_utf8(b).unwrap(), out);
+                    continue;
+                }
+                if alg == Algorithm::Myers {
+                    api_surface_case(tok, as_str, a, b, out);
                 }
                 for nl_override in [None, Some(true), Some(false)] {
                     let ctx = || {
@@ -140,6 +148,135 @@ fn text_case(a: &[u8], b: &[u8], toks: &[usize], algs: &[Algorithm], out: &mut L
                             }
                         }
                     }
+                }
+            }
+        }
+    }
+}
+
+/// The same text as a user-defined `DiffableStr` (`OddStr`: tokens that are equal for the type
+/// differ in bytes, U+2028 also ends a line, len/slice count characters): the text diff must be
+/// the sequence diff of the type's own tokens under the type's own `Eq`.
+fn odd_case(tok: usize, alg: Algorithm, a: &str, b: &str, out: &mut Local) {
+    use crate::odd_str::{oddify, OddStr};
+    let (ta, tb) = (oddify(a, a.len() as u64 + 1), oddify(b, b.len() as u64 + 2));
+    let (oa, ob) = (OddStr::new(&ta), OddStr::new(&tb));
+    let ctx = || format!("tokenizer={} alg={} type=OddStr (user-defined: case-insensitive Eq, U+2028 ends a line, char-indexed) old={} new={}", TOKS[tok], alg_name(alg), show(ta.as_bytes()), show(tb.as_bytes()));
+    out.eval();
+    let r = guard(|| {
+        fn toks(tok: usize, t: &OddStr) -> Vec<&OddStr> {
+            match tok {
+                0 | 5 => t.tokenize_lines(),
+                1 => t.tokenize_words(),
+                2 => t.tokenize_chars(),
+                #[cfg(feature = "unicode")]
+                3 => t.tokenize_unicode_words(),
+                #[cfg(feature = "unicode")]
+                4 => t.tokenize_graphemes(),
+                _ => t.tokenize_chars(),
+            }
+        }
+        let (xa, xb) = (toks(tok, oa), toks(tok, ob));
+        let want = capture_diff_slices(alg, &xa, &xb);
+        let got = run_text(tok, alg, None, oa, ob);
+        (got, want, xa.len(), xb.len())
+    });
+    match r {
+        Err(p) => out.violation("panic", format!("text diff over a user-defined DiffableStr panicked: {} | {}", p, ctx())),
+        Ok((got, want, na, nb)) => {
+            out.count("user_defined_text_type_diffs");
+            if na > 100 || nb > 100 {
+                out.count("user_defined_text_type_diffs_above_100_tokens");
+            }
+            if got.ops != want {
+                out.violation(
+                    "text.ops_differ_from_sequence_diff",
+                    format!("text diff ops {} but diffing the {}+{} tokens directly (under the type's own Eq) gives {} | {}", fmt_ops(&got.ops), na, nb, fmt_ops(&want), ctx()),
+                );
+            }
+            if got.alg != alg {
+                out.violation("text.algorithm", format!("diff reports algorithm {:?} | {}", got.alg, ctx()));
+            }
+            if got.nl != (tok == 0) {
+                out.violation("text.newline_terminated", format!("newline_terminated() = {} | {}", got.nl, ctx()));
+            }
+        }
+    }
+}
+
+/// The one-call constructors (`TextDiff::from_*`) and the reference types accepted through
+/// `DiffableStrRef` (String, Cow, Vec<u8>) are the default configuration: Myers, same ops.
+fn api_surface_case(tok: usize, as_str: bool, a: &[u8], b: &[u8], out: &mut Local) {
+    use std::borrow::Cow;
+    let ctx = || format!("tokenizer={} type={} old={} new={}", TOKS[tok], if as_str { "str" } else { "[u8]" }, show(a), show(b));
+    out.eval();
+    let r = guard(|| -> Vec<(&'static str, Vec<DiffOp>, Algorithm, bool)> {
+        let mut v = Vec::new();
+        macro_rules! all {
+            ($x:expr, $y:expr, $what:expr) => {{
+                let d = match tok {
+                    0 => TextDiff::from_lines($x, $y),
+                    1 => TextDiff::from_words($x, $y),
+                    2 => TextDiff::from_chars($x, $y),
+                    #[cfg(feature = "unicode")]
+                    3 => TextDiff::from_unicode_words($x, $y),
+                    #[cfg(feature = "unicode")]
+                    4 => TextDiff::from_graphemes($x, $y),
+                    _ => TextDiff::from_lines($x, $y),
+                };
+                v.push(($what, d.ops().to_vec(), d.algorithm(), d.newline_terminated()));
+            }};
+        }
+        if as_str {
+            let (sa, sb) = (std::str::from_utf8(a).unwrap(), std::str::from_utf8(b).unwrap());
+            all!(sa, sb, "TextDiff::from_*(&str)");
+            let (oa, ob) = (sa.to_string(), sb.to_string());
+            all!(&oa, &ob, "TextDiff::from_*(&String)");
+            let (ca, cb): (Cow<str>, Cow<str>) = (Cow::Borrowed(sa), Cow::Owned(sb.to_string()));
+            all!(&ca, &cb, "TextDiff::from_*(&Cow<str>)");
+        } else {
+            all!(a, b, "TextDiff::from_*(&[u8])");
+            let (oa, ob) = (a.to_vec(), b.to_vec());
+            all!(&oa, &ob, "TextDiff::from_*(&Vec<u8>)");
+            let (ca, cb): (Cow<[u8]>, Cow<[u8]>) = (Cow::Owned(a.to_vec()), Cow::Borrowed(b));
+            all!(&ca, &cb, "TextDiff::from_*(&Cow<[u8]>)");
+        }
+        if tok == 5 {
+            v.clear();
+            if as_str {
+                let (sa, sb) = (std::str::from_utf8(a).unwrap(), std::str::from_utf8(b).unwrap());
+                let (ta, tb) = (sa.tokenize_lines(), sb.tokenize_lines());
+                let d = TextDiff::from_slices(&ta, &tb);
+                v.push(("TextDiff::from_slices(lines of &str)", d.ops().to_vec(), d.algorithm(), d.newline_terminated()));
+            } else {
+                let (ta, tb) = (a.tokenize_lines(), b.tokenize_lines());
+                let d = TextDiff::from_slices(&ta, &tb);
+                v.push(("TextDiff::from_slices(lines of &[u8])", d.ops().to_vec(), d.algorithm(), d.newline_terminated()));
+            }
+        }
+        v
+    });
+    let want = guard(|| {
+        if as_str {
+            let (sa, sb) = (std::str::from_utf8(a).unwrap(), std::str::from_utf8(b).unwrap());
+            capture_diff_slices(Algorithm::Myers, &tokens_of(tok, sa), &tokens_of(tok, sb))
+        } else {
+            capture_diff_slices(Algorithm::Myers, &tokens_of(tok, a), &tokens_of(tok, b))
+        }
+    });
+    match (r, want) {
+        (Err(p), _) | (_, Err(p)) => out.violation("panic", format!("one-call constructor panicked: {} | {}", p, ctx())),
+        (Ok(v), Ok(want)) => {
+            for (what, ops, alg, nl) in v {
+                out.count("one_call_constructor_diffs");
+                if ops != want {
+                    out.violation("text.ops_differ_from_sequence_diff", format!("{}: ops {} but the Myers diff of the tokens gives {} | {}", what, fmt_ops(&ops), fmt_ops(&want), ctx()));
+                }
+                if alg != Algorithm::Myers {
+                    out.violation("text.algorithm", format!("{}: reports algorithm {:?} (no algorithm was configured; the default is Myers) | {}", what, alg, ctx()));
+                }
+                if nl != (tok == 0) {
+                    out.violation("text.newline_terminated", format!("{}: newline_terminated() = {} | {}", what, nl, ctx()));
                 }
             }
         }
